@@ -3,6 +3,7 @@ import FixModel.Spec.Codec
 import FixModel.SessionBridge
 import FixModel.Pool
 import FixModel.Framing
+import FixModel.Timer
 import Std.Data.HashMap
 /-!
 # fixdriver — one operation per input line, one result per output line
@@ -64,6 +65,13 @@ def stepLine (line : String) : String :=
             | some v => "some " ++ dBytes v
             | none => "none")) args
       | "pool" => poolOp args
+      | "timer" =>
+        match args.mapM String.toNat? with
+        | some (t :: p :: start :: rs) =>
+          some (match idealRun t p 100000 { start := start, last := start } rs with
+            | some τ => "expiry " ++ toString τ
+            | none => "none")
+        | _ => none
       | "frame" =>
         match args.mapM (fun a => match a.toList with | 'x' :: r => unhexAux r [] | _ => none) with
         | none => none
